@@ -569,6 +569,58 @@ fn random_write_session(rng: &mut Rng, rep: &mut Report) {
     }
 }
 
+/// One reader, one sink, one thread, and far more frames than any counter narrower than 32 bits can count: line i of the
+/// stream must come back as frame i, with the stream exactly at the end of line i, for all 70 000 (more than 2^16) lines;
+/// and the i-th write must put exactly the encoding of frame i into the sink.
+fn marathon(rep: &mut Report) {
+    const N: usize = 70_000;
+    let frame = |i: usize| -> (u16, u8, Vec<u8>) { (i as u16, (i >> 16) as u8 ^ (i as u8), (0..(i % 4)).map(|k| (i + k) as u8).collect()) };
+    let mut tape = vec![];
+    let mut ends = Vec::with_capacity(N);
+    for i in 0..N {
+        let (a, t, d) = frame(i);
+        tape.extend(refs::enc_crlf(a, t, &d));
+        ends.push(tape.len());
+    }
+    tape.extend_from_slice(b":trailing");
+    let faults = vec![(ends[255] + 3, ReadFault::Interrupted, 2), (ends[256], ReadFault::Interrupted, 1), (ends[65_535] + 1, ReadFault::Interrupted, 3), (ends[65_536], ReadFault::Interrupted, 1)];
+    let mut reader = FragReader::new(tape.clone(), vec![], faults);
+    rep.case(Some(0xC15_0001));
+    for i in 0..N {
+        let r = catch(|| Frame::read(&mut reader));
+        let got = match r {
+            Ok(res) => summarize(&res),
+            Err(p) => format!("panic {} at {}", p.msg, short_loc(&p.loc)),
+        };
+        let (a, t, d) = frame(i);
+        let want = format!("Ok({:04X}:{:02X}:{})", a, t, hex(&d));
+        if got != want || reader.pos != ends[i] {
+            rep.violation(MON_R, "long_stream", &format!("marathon-read-{}", i), format!("line #{} of a stream of {} lines read with one reader: returned {} with the stream at {}, expected {} at {}", i, N, got, reader.pos, want, ends[i]), J::obj(vec![("workload", J::s("marathon read")), ("line", J::us(i)), ("observed", J::s(got.clone())), ("expected", J::s(want.clone()))]));
+            break;
+        }
+        reader.log.clear();
+        rep.count("marathon_lines_read");
+    }
+    let mut w = FragWriter::new(vec![], WriteAct::Accept(usize::MAX));
+    rep.case(Some(0xC15_0002));
+    for i in 0..N {
+        let (a, t, d) = frame(i);
+        let before = w.accepted.len();
+        let r = catch(|| Frame::new(Address(a), MsgType(t), Data::try_new(d.clone()).expect("<=255")).write(&mut w).is_ok());
+        let want = refs::enc_crlf(a, t, &d);
+        let ok = matches!(r, Ok(true)) && w.accepted[before..] == want[..];
+        if !ok {
+            rep.violation(MON_W, "long_stream", &format!("marathon-write-{}", i), format!("frame #{} of {} written to one sink: result {:?}, the sink received [{}], expected [{}]", i, N, r.map_err(|p| p.msg), show_bytes(&w.accepted[before..]), show_bytes(&want)), J::obj(vec![("workload", J::s("marathon write")), ("frame", J::us(i))]));
+            break;
+        }
+        w.log.clear();
+        if w.accepted.len() > 1 << 20 {
+            w.accepted.clear();
+        }
+        rep.count("marathon_frames_written");
+    }
+}
+
 pub fn run(ctx: &Ctx) -> Outcome {
     let n_rand = ctx.size(1_200_000, 15_000_000);
     let n_write = ctx.size(400_000, 5_000_000);
@@ -578,6 +630,7 @@ pub fn run(ctx: &Ctx) -> Outcome {
             exhaustive_read(shard, rep);
         } else if shard == 3 {
             exhaustive_write(rep);
+            marathon(rep);
         } else {
             let mut rng = ctx.rng("rand", (shard - 4) as u64);
             for _ in 0..n_rand / shards as u64 {
@@ -597,6 +650,7 @@ pub fn run(ctx: &Ctx) -> Outcome {
         floor("exhaustive write set", report.get("exhaustive_write_sets_done") == 1, report.get("exhaustive_write_sets_done")),
         floor("the same frame on consecutive lines; wrong terminators made of CR / blank / tab", report.get("lines/same_frame_as_previous_line") > 1000 && report.get("lines/doubled_cr") > 100 && report.get("lines/blank_near_terminator") > 100, report.get("lines/same_frame_as_previous_line")),
         floor("maximum-length lines read through 1..6 interrupted reads", report.get("read_cases/maximum_length_frames_interrupted") == 84, report.get("read_cases/maximum_length_frames_interrupted")),
+        floor("70 000 lines through one reader and 70 000 frames into one sink", report.get("marathon_lines_read") == 70_000 && report.get("marathon_frames_written") == 70_000, format!("{} / {}", report.get("marathon_lines_read"), report.get("marathon_frames_written"))),
         floor("multi-frame streams", report.get("multi_frame_streams") > 0, report.get("multi_frame_streams")),
         floor("read faults of each kind fired", ["faults_fired/interrupted", "faults_fired/hard_error", "faults_fired/eof"].iter().all(|k| report.get(k) > 0), report.get("faults_fired/hard_error")),
         floor("frames read successfully", report.get("frames_read_ok") > 1000, report.get("frames_read_ok")),
